@@ -349,6 +349,7 @@ type opT struct {
 	Fact int    `json:"fact"`
 	H    int64  `json:"h"`  // save: height of the ACCEPT voteproof
 	NB   int    `json:"nb"` // save: new block (manifest id)
+	Rd   int    `json:"round"` // save: round of the ACCEPT voteproof (the model only knows heights: rounds must not matter)
 	Maj  bool   `json:"maj,omitempty"` // h-accept: the ACCEPT voteproof has a majority
 	M    int    `json:"m,omitempty"`   // h-accept: manifest (id) the handler got from processing
 	S    script `json:"script"`
@@ -389,9 +390,9 @@ func errClass(err error) string {
 	}
 }
 
-func (w *world) acceptVoteproof(fact int, h int64, nb int) base.ACCEPTVoteproof {
+func (w *world) acceptVoteproof(fact int, h int64, rd int, nb int) base.ACCEPTVoteproof {
 	u := w.u
-	point := base.NewPoint(base.Height(h), base.Round(0))
+	point := base.NewPoint(base.Height(h), base.Round(uint64(rd)))
 	afact := isaac.NewACCEPTBallotFact(point, u.proposals[fact].Fact().Hash(), u.mhash[nb], nil)
 	vp := isaac.NewACCEPTVoteproof(point)
 	vp.SetMajority(afact).Finish()
@@ -431,7 +432,7 @@ func (w *world) do(o opT) (string, base.BlockMap) {
 			return fmt.Sprintf("manifest:%d", u.mid(m.Hash())), nil
 		}
 	case "save":
-		avp := w.acceptVoteproof(o.Fact, o.H, o.NB)
+		avp := w.acceptVoteproof(o.Fact, o.H, o.Rd, o.NB)
 		bm, err := w.pps.Save(ctx, avp.BallotMajority().Proposal(), avp)
 		if err != nil {
 			return errClass(err), nil
@@ -637,7 +638,11 @@ func genOps(r *vh.Rand, heights []int64, n int) []opT {
 			case y == 1:
 				sc.WO = 2
 			}
-			ops = append(ops, opT{Kind: "save", Fact: f, H: h, NB: nb, S: sc})
+			rd := f // the proposal's own round (universe: proposal i is for round i)
+			if r.Chance(1, 8) {
+				rd = r.Intn(nFacts + 2)
+			}
+			ops = append(ops, opT{Kind: "save", Fact: f, H: h, NB: nb, Rd: rd, S: sc})
 			if h > prev && f == curFact {
 				prev = h
 			}
@@ -669,7 +674,8 @@ func corpus() ([]int64, [][]opT) {
 		}
 		return opT{Kind: "process", Fact: f, S: s}
 	}
-	sv := func(f int, h int64, nb int) opT { return opT{Kind: "save", Fact: f, H: h, NB: nb, S: ok} }
+	sv := func(f int, h int64, nb int) opT { return opT{Kind: "save", Fact: f, H: h, NB: nb, Rd: f, S: ok} }
+	svr := func(f int, h int64, rd int, nb int) opT { return opT{Kind: "save", Fact: f, H: h, NB: nb, Rd: rd, S: ok} }
 	cn := opT{Kind: "cancel", S: ok}
 	return hs, [][]opT{
 		{p(0, nil), sv(0, 3, 1)},                                                                  // plain save
@@ -687,6 +693,12 @@ func corpus() ([]int64, [][]opT) {
 		{p(0, nil), sv(0, 7, 1), p(2, nil), sv(2, 4, 1)},                                          // voteproof height above the proposal's
 		{p(0, func(s *script) { s.MK = 1; s.COK = false }), p(1, nil), cn, sv(0, 3, 1)},           // stub whose Cancel fails
 		{p(0, nil), sv(0, 3, 1), sv(0, 3, 1), sv(0, 4, 1)},                                        // repeated saves
+		// rounds: after a save at (3, round 0): the proposal of a LATER round of the same height (a late next-round
+		// INIT voteproof), matching and mismatching manifests; then lower rounds; then the next height
+		{p(0, nil), sv(0, 3, 1), p(1, nil), sv(1, 3, 1)},
+		{p(0, nil), svr(0, 3, 0, 1), p(1, nil), svr(1, 3, 5, 1), p(1, nil), svr(1, 3, 5, 2)},
+		{p(1, nil), sv(1, 3, 1), p(0, nil), sv(0, 3, 1), p(1, nil), sv(1, 3, 2), p(2, nil), sv(2, 4, 1), p(3, nil), sv(3, 4, 1)},
+		{p(0, nil), svr(0, 3, 2, 2), p(0, nil), svr(0, 3, 3, 1), p(1, nil), svr(1, 3, 4, 1), p(1, nil), svr(1, 3, 0, 1)},
 	}
 }
 
@@ -823,7 +835,10 @@ func runFree(res *vh.Result, r *vh.Rand, seed uint64, goroutines, opsEach int) {
 					if gr.Chance(1, 5) {
 						nb = gr.Intn(nManifests)
 					}
-					o = opT{Kind: "save", Fact: f, H: h, NB: nb}
+					o = opT{Kind: "save", Fact: f, H: h, NB: nb, Rd: f}
+					if gr.Chance(1, 6) {
+						o.Rd = gr.Intn(nFacts + 2)
+					}
 				}
 				rs, bm := w.do(o)
 				if o.Kind == "save" && rs == "ok" && bm != nil && w.table[o.Fact].MK == 0 && u.mid(bm.Manifest().Hash()) != o.NB {
